@@ -314,6 +314,45 @@ fn external_choices(edges: &[(u8, u8)], any_massive: bool) -> Vec<Vec<u8>> {
     if n >= 4 {
         res.push(vec![vs[0], vs[1], vs[2], vs[3]]);
     }
+    // a vertex with two external legs, listed once per leg
+    if n >= 2 {
+        res.push(vec![vs[0], vs[n - 1], vs[n - 1]]);
+    }
+    if n >= 3 {
+        res.push(vec![vs[0], vs[1], vs[n - 1], vs[n - 1]]);
+    }
+    res
+}
+
+/// WEIGHT PATTERNS: every assignment of two propagator powers with Gamma(w) != 1 (3/4 and 3/2) to the edges of the graphs with
+/// up to 3 edges (and the box): [a,a,b], [a,b,a], [b,a,a], ... - equal powers on neighbouring and on non-neighbouring edges
+pub fn weight_pattern_cases() -> Vec<CaseSpec> {
+    let mut topos = g_fam_topologies(3, 3);
+    topos.push(vec![(0, 1), (1, 2), (2, 3), (3, 0)]);
+    let mut res = vec![];
+    for topo in &topos {
+        let ne = topo.len();
+        let g0 = mk(topo, &vec![false; ne], &vec![1.0; ne], &[], 4);
+        if g0.loop_number(g0.full()) == 0 || ne < 2 {
+            continue;
+        }
+        let vs = g0.vertices(g0.full());
+        for (massive, ext) in [(vec![true; ne], vec![]), (vec![false; ne], vs.clone()), ((0..ne).map(|e| e == 0).collect::<Vec<bool>>(), vec![vs[0], vs[vs.len() - 1]])] {
+            if ext.len() == 1 || (ext.len() == 2 && ext[0] == ext[1]) {
+                continue;
+            }
+            for pat in 1..(1usize << ne) - 1 {
+                let w: Vec<f64> = (0..ne).map(|e| if pat >> e & 1 == 1 { 1.5 } else { 0.75 }).collect();
+                for d in [3usize, 4] {
+                    let g = mk(topo, &massive, &w, &ext, d);
+                    if admissible(&g) {
+                        res.push(CaseSpec { g, mom_variant: d % 2, mass_variant: pat % 2, label: "weights".into() });
+                        break;
+                    }
+                }
+            }
+        }
+    }
     res
 }
 
